@@ -309,8 +309,16 @@ func genSpec(seed int64, i int, wire int) *Spec {
 				}
 			}
 		}
+		for _, a := range a4 {
+			if a.peer != "" {
+				cand = append(cand, a.peer)
+			}
+		}
 		cand = append(cand, "203.0.113.9")
-		ci := CaseIn{Entry: 2, Target: cand[r.Intn(len(cand))], TClass: "wire"}
+		ci := CaseIn{Entry: 2 + k%2, Target: cand[r.Intn(len(cand))], TClass: "wire-arp"}
+		if ci.Entry == 3 {
+			ci.TClass = "wire-icmp"
+		}
 		combo := r.Intn(8)
 		if combo&1 != 0 {
 			ci.Iface = all[r.Intn(len(all))].name
